@@ -479,6 +479,15 @@ func (s *Sched) Run() Result {
 				}
 			}
 		}
+		if len(ready) == 0 && s.faultPos < len(s.cfg.Faults) {
+			// nothing can run: a pending fault arrives now (a cancel while every
+			// task is blocked, a clock jump while everybody sleeps)
+			if t := s.cfg.Faults[s.faultPos].Tick; t > s.ticks {
+				s.ticks = t
+			}
+			s.mu.Unlock()
+			continue
+		}
 		if len(ready) == 0 {
 			s.mu.Unlock()
 			select {
